@@ -297,14 +297,23 @@ Fixpoint ceq (a b : ctree) : Prop :=
 
 (* ---- document pickling: __getstate__ keeps the attributes of the object except its contents,
    which it replaces by the rendered markup; __setstate__ re-parses that markup with the stored
-   builder.  Rendering, parsing and the builder are parameters (C05 relates them). ---- *)
+   builder.  Rendering, parsing and the builder are parameters; the tree that is pickled and the
+   form in which the parser leaves the rebuilt one may be of different types (Proofs/CopyCompose.v
+   instantiates them with C05's renderer and C03's construction rules). ---- *)
+Record document (Builder Other Tree : Type) := mkdoc { d_builder : Builder; d_other : Other; d_tree : Tree }.
+Record pickled (Builder Other Markup : Type) := mkpk { k_builder : Builder; k_other : Other; k_markup : Markup }.
+Arguments mkdoc {Builder Other Tree}.  Arguments d_builder {Builder Other Tree}.
+Arguments d_other {Builder Other Tree}.  Arguments d_tree {Builder Other Tree}.
+Arguments mkpk {Builder Other Markup}.  Arguments k_builder {Builder Other Markup}.
+Arguments k_other {Builder Other Markup}.  Arguments k_markup {Builder Other Markup}.
 Section Pickle.
-  Variables (Builder Other Markup Tree : Type).
-  Variable render : Tree -> Markup.                    (* self.decode() *)
-  Variable feed : Builder -> Other -> Markup -> Tree.  (* reset(); _feed() *)
-  Record document := mkdoc { d_builder : Builder; d_other : Other; d_tree : Tree }.
-  Record pickled := mkpk { k_builder : Builder; k_other : Other; k_markup : Markup }.
-  Definition getstate (d : document) : pickled := mkpk (d_builder d) (d_other d) (render (d_tree d)).
-  Definition setstate (k : pickled) : document :=
+  Variables (Builder Other Markup Tree Tree' : Type).
+  Variable render : Tree -> Markup.                     (* self.decode() *)
+  Variable feed : Builder -> Other -> Markup -> Tree'.  (* reset(); _feed() *)
+  Definition getstate (d : document Builder Other Tree) : pickled Builder Other Markup :=
+    mkpk (d_builder d) (d_other d) (render (d_tree d)).
+  Definition setstate (k : pickled Builder Other Markup) : document Builder Other Tree' :=
     mkdoc (k_builder k) (k_other k) (feed (k_builder k) (k_other k) (k_markup k)).
 End Pickle.
+Arguments getstate {Builder Other Markup Tree}.
+Arguments setstate {Builder Other Markup Tree'}.
